@@ -111,7 +111,7 @@ class Oracle:
         self.step_flags = set() if w.dead else ec.guard_flags(w.adjacency(), kinds, o, fp)
         if o[0] == "GroupLayers" and o[1] and not w.dead:
             p = o[2] if o[2] is not None else (fp if isinstance(fp, int) and fp >= 0 else None)
-            if p is not None and kinds[p] != ec.KPIXEL and "group-layers-parent-inside" not in self.step_flags:
+            if p is not None and 0 <= p < len(kinds) and kinds[p] != ec.KPIXEL and "group-layers-parent-inside" not in self.step_flags:
                 try:
                     for x in o[1]:
                         xo = w.objs[x]
@@ -269,6 +269,12 @@ def _work(case):
     return ec.case_digest(ds), fails, stats, guarded
 
 
+def _work_err(case, msg):
+    inp = {"scene": case[0], "history": [list(o) for o in case[1]], "step": len(case[1]) - 1, "op": list(case[1][-1]) if case[1] else [],
+           "outcome": None, "flags": [], "step_flags": []}
+    return [0], [("driver-exception", inp, msg, "the operation sequence runs (errors of the API are outcomes, not crashes of the objects)")], {}, False
+
+
 def gen_cases(ck):
     thorough = ck.tier == "thorough"
     rng = ck.rng
@@ -289,7 +295,7 @@ def gen_cases(ck):
                 cases.append((k, [o, o2]))
     n2 = len(cases) - n1
     # length 3 (4 in the thorough tier): sampled uniformly from the product of the op alphabets
-    n3 = 60000 if thorough else 9000
+    n3 = 150000 if thorough else 20000
     for _ in range(n3):
         k = rng.choice([0, 1, 2, 3, 4, 5, 6])
         kinds = ec.kinds_after(ec.SCENES[k])
@@ -300,7 +306,7 @@ def gen_cases(ck):
             kinds = ec.kinds_after([o], kinds)
         cases.append((k, ops))
     # random walks, unguarded and guarded
-    nw = 4000 if thorough else 700
+    nw = 12000 if thorough else 1500
     for j in range(nw):
         k = rng.randrange(8)
         ln = rng.choice([8, 20, 40, 60])
@@ -322,7 +328,7 @@ def run():
     cases, sizes = gen_cases(ck)
     for k, v in sizes.items():
         ck.count("cases:" + k, v)
-    res = ec.parallel_map(_work, cases)
+    res = ec.parallel_map(ec.Guarded(_work, _work_err), cases)
     cc = []
     nguard = 0
     for c, (dg, fails, stats, guarded) in zip(cases, res):
